@@ -1,29 +1,152 @@
-import PlinioVerif.Model.PIT.Net
-import PlinioVerif.Lemmas.PIT.Scan
+import PlinioVerif.Lemmas.PIT.Sharing
 /-!
 # C09 — every layer sees exactly the alive features of the tensor that reaches it
-(first part: per-op propagation rules of the features calculators; the sharing-soundness
-theorems are in the second half of this file)
+
+Statements about the executable bookkeeping model `PlinioVerif.PIT` (tied to the real PIT objects
+by `harness/props/c09.py`): `aliveMasks p l α` is what every features calculator reports,
+`inMask` what `input_features_calculator.features_mask` of a layer is, `exportPlan` what export
+copies.  They hold for **every** program (any DAG of the grammar, any length and widths) and every
+mask assignment.
 -/
 namespace PlinioVerif.C09
 open PlinioVerif.PIT
 
-theorem aliveMasks_eq_scan (p : Prog) (l : List Nat) (α : Nat → List Rat) :
-    aliveMasks p l α = scan (maskStep p l α) p.zipIdx := rfl
-
 /-- a labelling accepted by the certificate gives equal labels across every kept edge of the
-sharing graph (hence: one masker per weakly connected component, at least) -/
-theorem labels_sound (p : Prog) (l : List Nat) (h : computeLabels p = some l) :
+sharing graph (one masker per weakly connected component) -/
+theorem labels_sound (p : Prog) (l : List ℕ) (h : computeLabels p = some l) :
     ∀ e ∈ keptEdges p, l.getD e.1 0 = l.getD e.2 0 := by
-  unfold computeLabels at h
-  simp only at h
-  split at h
-  · rename_i hok
-    cases h
-    unfold labelsOK at hok
-    simp only [Bool.and_eq_true, List.all_eq_true, beq_iff_eq] at hok
-    intro e he
-    exact hok.1 e he
-  · cases h
+  have hok := labelsOK_of_compute p l h
+  unfold labelsOK at hok
+  simp only [Bool.and_eq_true, List.all_eq_true, beq_iff_eq] at hok
+  exact fun e he => hok.1 e he
+
+variable (p : Prog) (l : List ℕ) (α : ℕ → List Rat)
+
+/-- through element-wise ops, pooling, padding (and the output node) a consumer sees the alive
+features of the producer, position by position -/
+theorem elementwise_propagates (hws : wellShaped p = true) (n s : ℕ) (hn : n < p.length)
+    (hop : p[n] = .chan s ∨ p[n] = .output s) :
+    (aliveMasks p l α).getD n [] = (aliveMasks p l α).getD s [] := by
+  rw [alive_eq p l α (srcsBefore_of_wellShaped p hws) n hn]
+  rcases hop with h | h <;> rw [h] <;> rfl
+
+theorem countT_append (a b : List Bool) : countT (a ++ b) = countT a + countT b := by
+  unfold countT; rw [List.filter_append, List.length_append]
+
+theorem countT_flatten (ms : List (List Bool)) : countT ms.flatten = (ms.map countT).sum := by
+  induction ms with
+  | nil => rfl
+  | cons m ms ih => rw [List.flatten_cons, countT_append, ih]; rfl
+
+/-- across channel concatenation the alive features are the concatenation of the operands' alive
+features — whatever their origin (searchable layers, fixed layers, network inputs) — and their
+number is the sum -/
+theorem concat_is_concatenation (hws : wellShaped p = true) (n : ℕ) (ss : List ℕ) (hn : n < p.length)
+    (hop : p[n] = .cat ss) :
+    (aliveMasks p l α).getD n [] = (ss.map ((aliveMasks p l α).getD · [])).flatten ∧
+    countT ((aliveMasks p l α).getD n []) = (ss.map fun s => countT ((aliveMasks p l α).getD s [])).sum := by
+  have h : (aliveMasks p l α).getD n [] = (ss.map ((aliveMasks p l α).getD · [])).flatten := by
+    rw [alive_eq p l α (srcsBefore_of_wellShaped p hws) n hn, hop]; rfl
+  refine ⟨h, ?_⟩
+  rw [h, countT_flatten, List.map_map]; rfl
+
+theorem countT_replicate (k : ℕ) (b : Bool) : countT (List.replicate k b) = if b then k else 0 := by
+  unfold countT; cases b <;> simp
+
+theorem countT_expand (m : List Bool) (k : ℕ) : countT (expand m k) = countT m * k := by
+  unfold expand
+  induction m with
+  | nil => simp [countT]
+  | cons b m ih =>
+    rw [List.map_cons, List.flatten_cons, countT_append, ih, countT_replicate]
+    cases b
+    · simp [countT]
+    · simp only [if_true, countT, List.filter_cons, id, List.length_cons]; ring
+
+/-- across a flatten every alive feature becomes `mult` alive features (and dead ones `mult` dead
+ones): the count is the product with the spatial size -/
+theorem flatten_is_product (hws : wellShaped p = true) (n s mult : ℕ) (hn : n < p.length)
+    (hop : p[n] = .flat s mult) :
+    (aliveMasks p l α).getD n [] = expand ((aliveMasks p l α).getD s []) mult ∧
+    countT ((aliveMasks p l α).getD n []) = countT ((aliveMasks p l α).getD s []) * mult := by
+  have h : (aliveMasks p l α).getD n [] = expand ((aliveMasks p l α).getD s []) mult := by
+    rw [alive_eq p l α (srcsBefore_of_wellShaped p hws) n hn, hop]; rfl
+  exact ⟨h, by rw [h, countT_expand]⟩
+
+/-- both sides of a residual sum carry identical alive features (in every supported program) -/
+theorem residual_operands_identical (hl : computeLabels p = some l) (hws : wellShaped p = true)
+    (hsup : supported p = true) (hne : noExcluded p = true) (n a b : ℕ) (hn : n < p.length)
+    (hop : p[n] = .add a b) :
+    (aliveMasks p l α).getD a [] = (aliveMasks p l α).getD b [] ∧
+    (aliveMasks p l α).getD n [] = (aliveMasks p l α).getD a [] := by
+  have h := coherent_of_bookkeeping (V := ℕ) ⟨fun _ _ _ v => v, fun _ _ => 0, fun _ _ v => v,
+    fun _ _ v => v, fun _ v => v, fun _ u v => u + v, fun _ _ v => v⟩ (fun n => List.replicate
+      (match p.getD n (.input 0) with | .input c => c | _ => 0) 0) p l α hl hws hsup hne
+    (by
+      intro k hk
+      unfold SemOK
+      cases hk' : p[k] <;> simp
+      simp [List.getD_eq_getElem?_getD, List.getElem?_eq_getElem hk, hk']) n hn
+  rw [hop] at h
+  unfold Coherent gm at h
+  exact ⟨h.2.2.2.1, h.2.2.1⟩
+
+/-- a depthwise convolution's alive outputs are the alive features of the tensor feeding it -/
+theorem depthwise_follows_input (hl : computeLabels p = some l) (hws : wellShaped p = true)
+    (hsup : supported p = true) (hne : noExcluded p = true) (n s : ℕ) (a : LAttr) (hn : n < p.length)
+    (hop : p[n] = .dw s a) :
+    (aliveMasks p l α).getD n [] = (aliveMasks p l α).getD s [] := by
+  have h := coherent_of_bookkeeping (V := ℕ) ⟨fun _ _ _ v => v, fun _ _ => 0, fun _ _ v => v,
+    fun _ _ v => v, fun _ v => v, fun _ u v => u + v, fun _ _ v => v⟩ (fun n => List.replicate
+      (match p.getD n (.input 0) with | .input c => c | _ => 0) 0) p l α hl hws hsup hne
+    (by
+      intro k hk
+      unfold SemOK
+      cases hk' : p[k] <;> simp
+      simp [List.getD_eq_getElem?_getD, List.getElem?_eq_getElem hk, hk']) n hn
+  rw [hop] at h
+  unfold Coherent gm at h
+  exact h.2
+
+/-- the number of input features a layer is exported with is the number of alive features of the
+tensor feeding it (what it reports and is charged for): the exported network is shape-consistent -/
+theorem exported_in_width (ms : List (List Bool)) (n : ℕ) :
+    (keptIdx (inMask p ms n)).length = countT (ms.getD ((getOp p n).inputs.headD 0) []) := by
+  unfold inMask
+  generalize ms.getD ((getOp p n).inputs.headD 0) [] = m
+  unfold keptIdx countT
+  induction m using List.reverseRecOn with
+  | nil => rfl
+  | append_singleton m b ih =>
+    rw [List.length_append, List.length_singleton, List.range_succ, List.filter_append, List.filter_append,
+      List.length_append, List.length_append]
+    have h1 : (List.range m.length).filter (fun i => (m ++ [b]).getD i false)
+        = (List.range m.length).filter (fun i => m.getD i false) := by
+      apply List.filter_congr
+      intro i hi
+      simp only [List.mem_range] at hi
+      simp [List.getD_eq_getElem?_getD, List.getElem?_append_left hi]
+    rw [h1, ih]
+    cases b <;> simp [List.getD_eq_getElem?_getD]
+
+/-! ### the two unsupported topologies (open known findings), witnessed on the model -/
+
+/-- residual sum with a concat operand: `y = cat(conv(x), x); z = conv(y); y + z` — the two
+operands of the sum get different alive features (here 2 vs 1 of 3) -/
+theorem add_with_concat_operand_unsound :
+    let p : Prog := [.input 1, .conv 0 2 {}, .cat [1, 0], .conv 2 3 {}, .add 2 3, .flat 4 1,
+                     .lin 5 2 {}, .output 6]
+    let α : ℕ → List Rat := fun g => if g = 1 then [0, 1] else [0, 0, 1]
+    supported p = false ∧
+    ((computeLabels p).map fun l => ((aliveMasks p l α).getD 2 [], (aliveMasks p l α).getD 3 []))
+      = some ([false, true, true], [false, false, true]) := by decide +kernel
+
+/-- depthwise convolution fed by a concat: its sharing component holds no features-defining
+node, so it has no masker at all -/
+theorem depthwise_after_concat_has_no_masker :
+    let p : Prog := [.input 1, .conv 0 2 {}, .cat [1, 0], .dw 2 {}, .flat 3 1, .lin 4 2 {}, .output 5]
+    supported p = false ∧
+    ((computeLabels p).map fun l => (groupOf p l (l.getD 3 0)).isSome) = some false := by
+  decide +kernel
 
 end PlinioVerif.C09
